@@ -1,4 +1,7 @@
 mod case;
+mod c15;
+mod c16;
+mod c17;
 mod driver;
 mod e2;
 mod e2drv;
@@ -51,6 +54,15 @@ fn main() {
             if let Some(def) = e2drv::e2(&id) {
                 std::process::exit(e2drv::check_e2(&def, tier, seed));
             }
+            if id == "C15" {
+                std::process::exit(c15::check_c15(tier, seed));
+            }
+            if id == "C16" {
+                std::process::exit(c16::check_c16(tier, seed));
+            }
+            if id == "C17" {
+                std::process::exit(c17::check_c17(tier, seed));
+            }
             eprintln!("unknown property {id}");
             std::process::exit(2);
         }
@@ -74,10 +86,70 @@ fn main() {
                 std::fs::write(out, serde_json::to_string(&o).unwrap()).unwrap();
                 return;
             }
+            if id == "C15" {
+                let o = c15::shard_c15(tier, seed, shard, cases, &exclude);
+                std::fs::write(out, serde_json::to_string(&o).unwrap()).unwrap();
+                return;
+            }
+            if id == "C16" {
+                let o = c16::shard_c16(seed, shard, cases);
+                std::fs::write(out, serde_json::to_string(&o).unwrap()).unwrap();
+                return;
+            }
+            if id == "C17" {
+                let o = c17::shard_c17(seed, shard, cases);
+                std::fs::write(out, serde_json::to_string(&o).unwrap()).unwrap();
+                return;
+            }
             std::process::exit(2);
         }
         "replay" => {
             let file = args.get(3).expect("file");
+            if id == "C17" {
+                let s = std::fs::read_to_string(file).expect("readable replay file");
+                let v: serde_json::Value = serde_json::from_str(&s).expect("json");
+                match c17::replay_c17(&v) {
+                    Some(msg) => {
+                        println!("replay fails: {msg}");
+                        println!("VIOLATION property={id} replay={file}");
+                        std::process::exit(1);
+                    }
+                    None => {
+                        println!("replay passes");
+                        std::process::exit(0);
+                    }
+                }
+            }
+            if id == "C16" {
+                let s = std::fs::read_to_string(file).expect("readable replay file");
+                let v: serde_json::Value = serde_json::from_str(&s).expect("json");
+                match c16::replay_c16(&v) {
+                    Some(msg) => {
+                        println!("replay fails: {msg}");
+                        println!("VIOLATION property={id} replay={file}");
+                        std::process::exit(1);
+                    }
+                    None => {
+                        println!("replay passes");
+                        std::process::exit(0);
+                    }
+                }
+            }
+            if id == "C15" {
+                let s = std::fs::read_to_string(file).expect("readable replay file");
+                let v: serde_json::Value = serde_json::from_str(&s).expect("json");
+                match c15::replay_c15(&v) {
+                    Some(msg) => {
+                        println!("replay fails: {msg}");
+                        println!("VIOLATION property={id} replay={file}");
+                        std::process::exit(1);
+                    }
+                    None => {
+                        println!("replay passes");
+                        std::process::exit(0);
+                    }
+                }
+            }
             if let Some(def) = e2drv::e2(&id) {
                 let s = std::fs::read_to_string(file).expect("readable replay file");
                 let rp: e2drv::E2Replay = serde_json::from_str(&s).expect("E2 replay file");
